@@ -16,6 +16,7 @@ import (
 	"0chain.net/chaincore/block"
 	"0chain.net/chaincore/chain"
 	"0chain.net/chaincore/round"
+	"0chain.net/chaincore/state"
 	"0chain.net/chaincore/transaction"
 	"0chain.net/core/common"
 	"0chain.net/core/datastore"
@@ -88,12 +89,14 @@ type follower struct {
 	nextRound int64 // next round to hand to FinalizeRound
 	hold      int   // withhold finalisation for this many blocks
 	syncNext  int   // sync (instead of executing) this many next blocks
+	psyncNext int   // partial state sync of the next state-changing block: store its root and this many - 1 top nodes early
 	finalized int
 
 	floor        int64 // blocks at or above this round must be readable (max over prunes)
 	afterCrash   bool  // a crash happened since the start: violations carry /after-crash
 	lastDead     map[int64]int
 	lastSets     map[int64]map[string]bool
+	preRoots     map[string]bool  // state roots a partial state sync stored before their block was finalised
 	prunedBy     map[string]int64 // node hash -> round of the dead-node record it was pruned under (diagnostics)
 	fault        *fault27         // armed disk fault (nil none)
 	directPrune  bool
@@ -301,7 +304,7 @@ func pruneWrites(recs map[int64]int, v int64) []pwrite {
 // ---- follower life cycle ---------------------------------------------------------------------------
 
 func newFollower(w *ledger.World, p *sim.Plan) *follower {
-	f := &follower{w: w, tr: w.Tr, byHash: map[string]*fblk{}, count: p.CfgInt(pruneCountKey, 100), churnModel: newChurnModel(), prunedBy: map[string]int64{}}
+	f := &follower{w: w, tr: w.Tr, byHash: map[string]*fblk{}, count: p.CfgInt(pruneCountKey, 100), churnModel: newChurnModel(), prunedBy: map[string]int64{}, preRoots: map[string]bool{}}
 	f.rp = w.NewReplica("fin")
 	f.startWorkers()
 	f.nextRound = 1
@@ -391,6 +394,14 @@ func (f *follower) deliver(fb *fblk) bool {
 	rr.AddNotarizedBlock(nb)
 	c.SetCurrentRound(b.Round)
 	f.tr.Event("c27 deliver round=%d %s root=%x deletes=%d changes=%d", b.Round, mode, short(b.ClientStateHash), len(nb.ClientState.GetDeletes()), nb.ClientState.GetChangeCount())
+	if f.psyncNext > 0 && !bytes.Equal(b.ClientStateHash, b.PrevBlock.ClientStateHash) && !f.preRoots[string(b.ClientStateHash)] {
+		n := f.psyncNext
+		f.psyncNext = 0
+		f.partialSync(nb, n)
+		if rp.Disk.Crashed() {
+			return false
+		}
+	}
 	return true
 }
 
@@ -524,14 +535,71 @@ func bucketN(n int) string {
 // refreshSaved marks the blocks whose state root is on the follower's disk. Decided on
 // the disk, not on what the finalisation code reported.
 func (f *follower) refreshSaved(ndb util.NodeDB) {
+	lfb := f.rp.C.GetLatestFinalizedBlock().Round
+	fresh := false
 	for _, fb := range f.blocks {
 		if fb.saved {
 			continue
 		}
+		// finalised (at or below the LFB of the live process / the LFB the node restarted at) and its root on
+		// disk. The root alone being on disk does not count: a partial state sync may have put it there early
+		if fb.b.Round > lfb {
+			continue
+		}
 		if _, err := ndb.GetNode(fb.b.ClientStateHash); err == nil {
 			fb.saved = true
+			if f.preRoots[string(fb.b.ClientStateHash)] {
+				fresh = true
+			}
 		}
 	}
+	if fresh && !f.dead {
+		// a block whose root had been stored early by a partial state sync is finalised now: read it back at once
+		f.tr.Probe("pre-rooted-block-finalised")
+		f.check(ndb, "after-finalize")
+	}
+}
+
+// partialSync stores the root node of the block's state and up to n-1 further top nodes created by the block
+// in the follower's persistent node DB through the shipped partial-state path (PartialState.ComputeProperties,
+// Chain.SyncPartialState -> SavePartialState -> PartialState.SaveState -> util.MergeState), as a state sync of
+// the upper part of that state does, before the block is finalised.
+func (f *follower) partialSync(nb *block.Block, n int) {
+	ndb := nb.ClientState.GetNodeDB()
+	root, err := ndb.GetNode(nb.ClientStateHash)
+	if err != nil {
+		return
+	}
+	nodes := []util.Node{root}
+	for i := 0; i < len(nodes) && len(nodes) < n; i++ {
+		var kids []util.Key
+		switch x := nodes[i].(type) {
+		case *util.FullNode:
+			for _, c := range x.Children {
+				if c != nil {
+					kids = append(kids, c)
+				}
+			}
+		case *util.ExtensionNode:
+			kids = append(kids, x.NodeKey)
+		}
+		for _, k := range kids {
+			if len(nodes) >= n {
+				break
+			}
+			if c, err := ndb.GetNode(k); err == nil && int64(c.GetOrigin()) == nb.Round {
+				nodes = append(nodes, c)
+			}
+		}
+	}
+	ps := &state.PartialState{Hash: append(util.Key(nil), nb.ClientStateHash...), Version: "1.0", Nodes: nodes}
+	if err := ps.ComputeProperties(); err != nil {
+		panic(fmt.Sprintf("partial state of block %d not valid: %v", nb.Round, err))
+	}
+	err = f.rp.C.SyncPartialState(f.ctx, ps)
+	f.preRoots[string(nb.ClientStateHash)] = true
+	f.tr.Fault("partial-state-sync")
+	f.tr.Event("c27 partial state sync round=%d nodes=%d err=%v", nb.Round, len(nodes), err != nil)
 }
 
 // check is the oracle: every retained block at or above the prune round reads
@@ -721,6 +789,8 @@ func writeSite() string {
 			return "StoreLFBRound"
 		case strings.HasSuffix(fn, ".MultiPutNode"):
 			site = "SaveChanges"
+		case strings.HasSuffix(fn, ".MergeState"):
+			return "" // the partial state sync's own write, not a finalisation site
 		}
 		if !more {
 			break
@@ -904,6 +974,9 @@ func gen27(sc ledger.Scenario) func(seed uint64, tier string) *sim.Plan {
 			if nt.Intn(100) < 12 {
 				out = append(out, sim.Step{Op: "c27.sync", I: []int64{int64(nt.Range(1, 3))}})
 			}
+			if nt.Intn(100) < 12 {
+				out = append(out, sim.Step{Op: "c27.psync", I: []int64{int64(nt.Pick([]int{4, 2, 1, 1, 1, 1}))}})
+			}
 			if dk.Intn(100) < map[bool]int{true: 4, false: 9}[long] || (heavy && dk.Intn(100) < 40) {
 				site := dk.Pick([]int{3, 3, 2, 4, 4})
 				if heavy {
@@ -989,6 +1062,7 @@ func setup27(w *ledger.World, r *ledger.Runner) []ledger.Observer {
 		f.observe(-1)
 	}
 	r.Ops["c27.hold"] = func(r *ledger.Runner, st sim.Step) { f.hold = int(st.Int(0, 1)) % 12 }
+	r.Ops["c27.psync"] = func(r *ledger.Runner, st sim.Step) { f.psyncNext = 1 + int(st.Int(0, 0))%6 }
 	r.Ops["c27.sync"] = func(r *ledger.Runner, st sim.Step) { f.syncNext = int(st.Int(0, 1)) % 6 }
 	r.Ops["c27.tick"] = func(r *ledger.Runner, st sim.Step) {
 		defer dbgPanic()
@@ -1105,7 +1179,7 @@ func init() {
 			return sc.Exec(env, p)
 		},
 		Quick: sim.Budget{Runs: 96, WallS: 80}, Thorough: sim.Budget{Runs: 6000, WallS: 1200},
-		LevelText: "a follower chain (own chain.Chain and PNodeDB on its own simulated disk) receives every block of the primary (key-churn workload: a sim-owned registered contract inserts, deletes and re-inserts identical and different values under fixed keys through the real StateContext within one transaction, within one block and in later blocks; plus sends, faucet pours and arbitrary contract calls), executes it with Block.ComputeState or syncs it with ApplyBlockStateChange, and finalises it through the shipped workers: Chain.FinalizeRound -> FinalizeRoundWorker -> finalizeRound (ComputeFinalizedBlock, 3-confirmation rule) -> FinalizedBlockWorker -> finalizeBlockProcess -> finalizeBlock (SaveChanges, RecordDeadNodes(ClientState.GetDeletes(), round), StoreLFBRound) with a sim BlockStateHandler/ViewChanger; pruning runs in the shipped PruneClientStateWorker on the fake clock of a synctest bubble (pruneClientState with its ring walk / alignment to rounds divisible by 100 -> PNodeDB.PruneBelowVersion; prune_below_count 1..12 from the plan; runs of 105..140 rounds reach the aligned round 100, shorter runs reach pruning through restarts); the follower's disk crashes at plan-chosen write boundaries inside SaveChanges, RecordDeadNodes, StoreLFBRound, the node-deletion batches and the dead-node-record deletion of PruneBelowVersion (or returns one I/O error there, except in SaveChanges), the follower restarts from its disk alone at the LFB record the shipped code stored, re-executes and keeps finalising and pruning. Oracle: after every prune and every restart each finalised block at or above the prune round — at least every block from LFB - prune_below_count on — is walked completely against the persistent node DB alone and must equal the model state captured when the primary assembled it",
+		LevelText: "a follower chain (own chain.Chain and PNodeDB on its own simulated disk) receives every block of the primary (key-churn workload: a sim-owned registered contract inserts, deletes and re-inserts identical and different values under fixed keys through the real StateContext within one transaction, within one block and in later blocks; plus sends, faucet pours and arbitrary contract calls), executes it with Block.ComputeState or syncs it with ApplyBlockStateChange, and finalises it through the shipped workers: Chain.FinalizeRound -> FinalizeRoundWorker -> finalizeRound (ComputeFinalizedBlock, 3-confirmation rule) -> FinalizedBlockWorker -> finalizeBlockProcess -> finalizeBlock (SaveChanges, RecordDeadNodes(ClientState.GetDeletes(), round), StoreLFBRound) with a sim BlockStateHandler/ViewChanger; pruning runs in the shipped PruneClientStateWorker on the fake clock of a synctest bubble (pruneClientState with its ring walk / alignment to rounds divisible by 100 -> PNodeDB.PruneBelowVersion; prune_below_count 1..12 from the plan; runs of 105..140 rounds reach the aligned round 100, shorter runs reach pruning through restarts); the follower's disk crashes at plan-chosen write boundaries inside SaveChanges, RecordDeadNodes, StoreLFBRound, the node-deletion batches and the dead-node-record deletion of PruneBelowVersion (or returns one I/O error there, except in SaveChanges), a partial state sync (Chain.SyncPartialState -> PartialState.SaveState) stores the root and a few top nodes of a block's state before the block is finalised; the follower restarts from its disk alone at the LFB record the shipped code stored, re-executes and keeps finalising and pruning. Oracle: after every prune and every restart each finalised block at or above the prune round — at least every block from LFB - prune_below_count on — is walked completely against the persistent node DB alone and must equal the model state captured when the primary assembled it",
 		LevelNote: "the real finalize and prune workers run (no fallback); additionally the plan issues direct PNodeDB.PruneBelowVersion calls at seeded versions <= LFB. Consensus facts (one notarized block per round, rank 0) are sim-owned. Crash points inside PruneBelowVersion are placed only where a failing write cannot leave its iterator goroutine blocked on its channel (a goroutine blocked forever would abort the synctest bubble): the last node batch, the dead-record deletion, and 1000-key batches with at most one record left. No I/O errors (only crashes) are injected in SaveChanges: util.MerklePatriciaTrie.SaveChanges selects between its error and its done channel when both are ready, so whether a failed write is reported is decided by the Go runtime's unseedable choice (a failed save reported as success was seen once, not replayable, not claimed). Which blocks count as saved is read off the disk. Power loss (lost unsynced suffix) is not injected: the code never syncs. The MPT change collector and PNodeDB live in github.com/0chain/common (outside /repo): /repo decides which block's deletes are recorded under which round and which version is pruned",
 		Technique: "deterministic simulation: key-churn workload, crash/restart and I/O-error faults at disk-write boundaries, fake clock for the shipped workers, full-state read-back oracle against a model",
 		DesignRef: "6/C27", Regime: "single-threaded event loop inside a testing/synctest bubble; the shipped worker goroutines run to quiescence (synctest.Wait) after every step",
